@@ -225,6 +225,7 @@ def compare_residual(ctx, run, S, cfg, impl_form, spec_lin, what, key, pred='tam
     side = side or []
     keys = set(impl_form) | set(spec_lin.d)
     n_nontrivial = 0
+    n_failed = 0
     for b in sorted(keys, key=lambda v: (v is None, v)):
         fi = run.norm.frac(impl_form[b]) if b in impl_form else run.norm.fconst(0)
         fs = spec_lin.d.get(b, run.norm.fconst(0))
@@ -234,8 +235,15 @@ def compare_residual(ctx, run, S, cfg, impl_form, spec_lin, what, key, pred='tam
             ctx.D.record('syntactically-identical', what, 'unsat', 0.0, 'unsat')
             continue
         n_nontrivial += 1
-        ctx.solve(S, 'valid-eq', '%s coefficient[%s]' % (what, run.basis_name(b) if b is not None else 'missing-generator'),
-                  side + ['(not (= t%d 0.0))' % num], cfg=cfg, key=key, pred=pred)
+        ok = ctx.solve(S, 'valid-eq', '%s coefficient[%s]' % (what, run.basis_name(b) if b is not None else 'missing-generator'),
+                       side + ['(not (= t%d 0.0))' % num], cfg=cfg, key=key, pred=pred)
+        if ok is False:
+            n_failed += 1
+            if n_failed >= 12:
+                # a dozen coefficients of this residual already fail (findings recorded): the remaining ones add nothing and, on a tree where the
+                # relation is broken, each costs a hard satisfiable query
+                ctx.notes.append('%s: stopped after %d failing coefficients' % (what, n_failed))
+                break
     return n_nontrivial
 
 
